@@ -62,6 +62,20 @@ BREAKING = [
                                        "                                    return_samples=return_samples, **k) for s, k in zip(sigs, _kw)]\n"
                                        "                dfs_features = [f.result() for f in as_completed(_futs)]\n\n    elif axis is None:")],
      'concurrent.futures with as_completed: completion order'),
+    ('m11_queue_arrival_order', 'C11', [(G, "            dfs_features = list(progress_bar(mapping, progress, len(sigs)))\n\n    elif axis is None:",
+        "            _kw = kwargs if len(kwargs) > 1 else kwargs * len(sigs)\n"
+        "            _f = partial(compute_features, fs=fs, f_range=f_range, return_samples=return_samples)\n"
+        "            import queue as _queue\n"
+        "            _q = _queue.Queue()\n"
+        "            for s, k in zip(sigs, _kw):\n"
+        "                pool.apply_async(_f, (s,), k, callback=_q.put, error_callback=_q.put)\n"
+        "            dfs_features = []\n"
+        "            for _ in range(len(sigs)):\n"
+        "                _r = _q.get()\n"
+        "                if isinstance(_r, Exception):\n"
+        "                    raise _r\n"
+        "                dfs_features.append(_r)\n\n    elif axis is None:")],
+     'callbacks feed a queue.Queue; results appended in arrival order'),
     ('m11_njobs_chunk', 'C11', [(G, "                                    zip(sigs, kwargs))\n\n            else:",
                                  "                                    zip(sigs[:n_jobs * 2], kwargs))\n\n            else:")],
      'rows beyond 2*n_jobs dropped (result depends on n_jobs)'),
@@ -211,6 +225,30 @@ PRESERVING = [
                                        "                                    return_samples=return_samples, **k) for s, k in zip(sigs, _kw)]\n"
                                        "                dfs_features = [f.result() for f in _futs]\n\n    elif axis is None:")],
      'concurrent.futures, results taken in submission order'),
+    ('p_poll_ready', [(G, "            dfs_features = list(progress_bar(mapping, progress, len(sigs)))\n\n    elif axis is None:",
+        "            _kw = kwargs if len(kwargs) > 1 else kwargs * len(sigs)\n"
+        "            _f = partial(compute_features, fs=fs, f_range=f_range, return_samples=return_samples)\n"
+        "            import time as _time\n"
+        "            _res = [pool.apply_async(_f, (s,), k) for s, k in zip(sigs, _kw)]\n"
+        "            while not all(r.ready() for r in _res):\n"
+        "                _time.sleep(0.0005)\n"
+        "            dfs_features = [r.get() for r in _res]\n\n    elif axis is None:")],
+     'apply_async, polling ready() with sleep, results read by position'),
+    ('p_queue_by_index', [(G, "            dfs_features = list(progress_bar(mapping, progress, len(sigs)))\n\n    elif axis is None:",
+        "            _kw = kwargs if len(kwargs) > 1 else kwargs * len(sigs)\n"
+        "            _f = partial(compute_features, fs=fs, f_range=f_range, return_samples=return_samples)\n"
+        "            import queue as _queue\n"
+        "            _q = _queue.Queue()\n"
+        "            for _i, (s, k) in enumerate(zip(sigs, _kw)):\n"
+        "                pool.apply_async(_f, (s,), k, callback=lambda r, _i=_i: _q.put((_i, r)),\n"
+        "                                 error_callback=lambda e, _i=_i: _q.put((_i, e)))\n"
+        "            dfs_features = [None] * len(sigs)\n"
+        "            for _ in range(len(sigs)):\n"
+        "                _i, _r = _q.get()\n"
+        "                if isinstance(_r, Exception):\n"
+        "                    raise _r\n"
+        "                dfs_features[_i] = _r\n\n    elif axis is None:")],
+     'callbacks feed a queue.Queue with (index, result); placed by index'),
     ('p_private_keys', [(O, "        self.df_features = compute_features(\n            self.sig,",
                          "        self.__dict__['_n_fits'] = self.__dict__.get('_n_fits', 0) + 1\n        self.df_features = compute_features(\n            self.sig,")],
      'object keeps a private fit counter'),
